@@ -350,16 +350,33 @@ def run_server(kind, conns, cycles=None):
     return (esc, res)
 
 
-def run_client(frags, close_after, scheme="http", redirectable=True, cycles=None):
-    """Client with a scripted connector: one GET is transmitted, the scripted response bytes come back.
+def scripted_resolve(host):
+    """stand-in for socket.getaddrinfo inside coring.normalizeHost: numeric IPv4 resolves to itself, any other name is
+    first IDNA encoded exactly as the runtime does for a str host (UnicodeError for an empty or over long label) and then
+    'resolves' to a fixed loopback address.  No network."""
+    if re.match(r"^\d{1,3}\.\d{1,3}\.\d{1,3}\.\d{1,3}$", host or ""):
+        return host
+    if isinstance(host, str):
+        host.encode("idna")
+    return "127.0.0.9"
+
+
+def run_client(frags, close_after, scheme="http", redirectable=True, cycles=None, reconnect=False):
+    """Client with a scripted connector: one GET is transmitted, the scripted response bytes come back; a followed
+    redirect is re-sent on a scripted connector too; with `reconnect` the connector is reconnectable and virtual time
+    advances one second per service pass, so a closed event stream is re-requested (Last-Event-ID).
     Returns (escaped-class or None, [(status, errored)] delivered through .responses, n_events)."""
+    from hio.base import tyming
     from hio.core import tcp
     from hio.core.http import clienting
-    from hio.core import coring
     ha = ('127.0.0.1', 8080)
     made = []
 
     class Conn(tcp.Client):
+        def __init__(self, context=None, version=None, certify=None, hostify=None, certedhost="", keypath=None,
+                     certpath=None, cafilepath=None, **kwa):     # the TLS-only parameters of tcp.ClientTls are accepted
+            super(Conn, self).__init__(**kwa)
+
         def open(self):
             self.accepted = False
             self.connected = False
@@ -370,20 +387,22 @@ def run_client(frags, close_after, scheme="http", redirectable=True, cycles=None
             self.opened = True
             return True
 
-    saved = (clienting.tcp.Client, clienting.coring.normalizeHost)
+    saved = (clienting.tcp.Client, clienting.tcp.ClientTls, clienting.coring.normalizeHost)
     # name resolution and socket creation are the runtime's, not hio's: scripted (DESIGN §2.1)
     clienting.tcp.Client = Conn
-    clienting.coring.normalizeHost = lambda h: h if re.match(r"^\d+\.\d+\.\d+\.\d+$", h or "") else "127.0.0.9"
-    tcp.clienting.coring.normalizeHost = clienting.coring.normalizeHost
+    clienting.tcp.ClientTls = Conn
+    clienting.coring.normalizeHost = scripted_resolve
     esc = None
     try:
-        conn = Conn(ha=ha)
+        tymist = tyming.Tymist(tock=1.0)
+        kw = dict(reconnectable=True, tymeout=0.5) if reconnect else {}
+        conn = Conn(ha=ha, tymth=tymist.tymen(), **kw)
         cli = clienting.Client(connector=conn, redirectable=redirectable)
         cli.reopen()
         if scheme == "https":
             cli.requester.scheme = "https"
         cli.request(method="GET", path="/x")
-        n = cycles if cycles is not None else len(frags) + 8
+        n = cycles if cycles is not None else len(frags) + (14 if reconnect else 8)
         for _ in range(n):
             for s in made:
                 s.tick()
@@ -392,11 +411,11 @@ def run_client(frags, close_after, scheme="http", redirectable=True, cycles=None
             except Exception as ex:   # noqa
                 esc = type(ex).__name__
                 break
+            tymist.tick()
         resps = [(r['status'], bool(r['errored'])) for r in cli.responses]
         nev = len(cli.events)
     finally:
-        clienting.tcp.Client, clienting.coring.normalizeHost = saved
-        tcp.clienting.coring.normalizeHost = saved[1]
+        clienting.tcp.Client, clienting.tcp.ClientTls, clienting.coring.normalizeHost = saved
     return (esc, resps, nev)
 
 
@@ -659,7 +678,7 @@ def gen_sse_stream(rng, invalid_utf8=False):
                 if line != b"data":
                     line += rng.choice(vals).encode('utf-8')
             elif k < 0.6:
-                line = b"id" + rng.choice([b": ", b":"]) + rng.choice(["1", "42", "", "abc", "é"]).encode('utf-8')
+                line = b"id" + rng.choice([b": ", b":"]) + rng.choice(["1", "42", "", "abc", "é", "€", "日本", "\U0001f600", "\x7f", "a b", "ÿ", "Ā"]).encode('utf-8')
             elif k < 0.72:
                 line = b"event" + rng.choice([b": ", b":"]) + rng.choice(["add", "msg", "", "x y"]).encode('utf-8')
             elif k < 0.84:
@@ -677,6 +696,34 @@ def gen_sse_stream(rng, invalid_utf8=False):
         out += b"data: tail" + (eol() if rng.random() < 0.5 else b"")
     s = bytes(out)
     return s
+
+
+def gen_location(rng):
+    """a redirect Location drawn from the URL grammar with adversarial pieces at every position (latin-1 text)"""
+    if rng.random() < 0.12:
+        return rng.choice(["/relative", "relative/x", "?q=1", "//127.0.0.1:8080/n", "//other.example/x", "", " ", "#f", "../x", "/a//b"])
+    scheme = rng.choice(["http", "http", "http", "https", "HTTP", "ftp", "", "ht tp"])
+    user = rng.choice(["", "", "", "u@", "u:p@", "@", "u:p:q@"])
+    host = rng.choice(["127.0.0.1", "127.0.0.1", "127.0.0.1", "127.0.0.2", "localhost", "other.example", "a..b", ".a", "a.", "x" * 64 + ".com",
+                       "\xe9.example", "xn--", "[::1]", "[::1", "::1]", "[zz]", "[]", "", "h_st", "h st", "1.2.3.4.5", "%41", "a" * 300])
+    port = rng.choice(["", "", ":8080", ":8080", ":80", ":0", ":65535", ":65536", ":99999", ":ab", ":-1", ":", ": 80", ":8080x", ":\xb2"])
+    path = rng.choice(["/n", "/n", "", "/", "//other.example/x", "//127.0.0.1:81/x", "//127.0.0.1:99999/x", "//127.0.0.1:8080/x", "//[::1/x", "//a..b/x",
+                       "/a b", "/%zz", "/%5B", "/\xe9", "/a;b", "/" + "p" * 300, "//", "///x", "/x//y"])
+    query = rng.choice(["", "", "?a=1", "?a=1&b", "?a=%zz", "?", "?a;b", "?\xe9=1", "?x=//y"])
+    frag = rng.choice(["", "", "#f", "#"])
+    return (scheme + "://" if scheme or rng.random() < 0.5 else "") + user + host + port + path + query + frag
+
+
+def gen_redirect(rng):
+    """3xx response carrying a generated Location (latin-1 on the wire)"""
+    status = rng.choice([300, 301, 302, 303, 307, 307, 308, 304])
+    loc = gen_location(rng)
+    hs = [b"Content-Length: 0"]
+    if rng.random() < 0.93:
+        hs.insert(rng.randrange(0, 2), rng.choice([b"Location: ", b"location: ", b"LOCATION: "]) + loc.encode("latin-1", "replace"))
+    if rng.random() < 0.2:
+        hs.append(b"Connection: close")
+    return b"HTTP/1.1 %d R\r\n" % status + b"\r\n".join(hs) + b"\r\n\r\n"
 
 
 def mutate_bytes(rng, data, k=None):
@@ -724,8 +771,12 @@ def mutate_bytes(rng, data, k=None):
 #   ("chunks", data, cuts)                            httping.parseChunk in a loop
 #   ("enc",  body, sizes, exts, trailers, cuts)       chunked coding built from the literals, decoded by parseChunk
 #   ("pack", (payload, ...), cuts)                    httping.packChunk of each payload + packChunk(b""), decoded by parseChunk
+#   ("wsgi", (piece, ...), cuts)                      serving.Responder writing the pieces a WSGI app yields (chunked),
+#                                                     decoded by clienting.Respondent
 #   ("srv",  kind, ((data, cuts, close), ...))        Server (wsgi) / BareServer service loop, one entry per connection
-#   ("cli",  data, cuts, close, scheme)               Client service loop on response bytes
+#   ("cli",  data, cuts, close, scheme)               Client service loop on response bytes (redirects are re-sent)
+#   ("clir", data, cuts)                              the same with a reconnectable connector: the far side closes, virtual
+#                                                     time passes, the client reconnects and re-requests (Last-Event-ID)
 
 def enc_wire(body, sizes, exts, trailers):
     """deterministic chunked coding: chunk i has sizes[i] bytes (last one takes the rest), exts[i] appended verbatim
@@ -767,16 +818,18 @@ def case_data(case):
         return sser_wire(case[1], case[2], case[3])
     if k == "enc":
         return enc_wire(case[1], case[2], case[3], case[4])[0]
-    if k == "cli":
+    if k in ("cli", "clir"):
         return case[1]
     if k == "pack":
         from hio.core.http import httping
         return b"".join(bytes(httping.packChunk(p)) for p in case[1]) + bytes(httping.packChunk(b""))
+    if k == "wsgi":
+        return wsgi_wire(case[1])
     return b""
 
 
 def case_cuts(case):
-    ix = {"req": 2, "resp": 3, "sse": 2, "sser": 4, "chunks": 2, "enc": 5, "cli": 2, "pack": 2}.get(case[0])
+    ix = {"req": 2, "resp": 3, "sse": 2, "sser": 4, "chunks": 2, "enc": 5, "cli": 2, "clir": 2, "pack": 2, "wsgi": 2}.get(case[0])
     return case[ix] if ix is not None else None
 
 
@@ -802,7 +855,13 @@ def run_case(case):
     if k == "sse":
         fr = frags_of(case)
         return (feed_sse(fr), feed_sse([case[1]]))
-    if k in ("chunks", "enc", "pack"):
+    if k == "pack":
+        d = case_data(case)
+        return (d, feed_chunks(split_at(d, case[2])), feed_chunks([d]))
+    if k == "wsgi":
+        d = case_data(case)
+        return (feed_resp("GET", split_at(d, case[2]), False), feed_resp("GET", [d], False))
+    if k in ("chunks", "enc"):
         fr = frags_of(case)
         return (feed_chunks(fr), feed_chunks([case_data(case)]))
     if k == "srv":
@@ -812,6 +871,8 @@ def run_case(case):
         return (multi, alone)
     if k == "cli":
         return (run_client(split_at(case[1], case[2]), case[3], scheme=case[4]),)
+    if k == "clir":
+        return (run_client(split_at(case[1], case[2]), True, reconnect=True),)
     raise ValueError(f"bad case kind {k!r}")
 
 
@@ -826,13 +887,19 @@ def request_of(case):
         return ("resp", False, frags_of(case), case[1] == "close")
     if k == "sse":
         return ("sse", frags_of(case))
-    if k in ("chunks", "enc", "pack"):
+    if k == "pack":
+        return ("pack", list(case[1]), list(case[2]))      # the model encodes the pieces itself (packAll)
+    if k == "wsgi":
+        return ("resp", False, frags_of(case), False)
+    if k in ("chunks", "enc"):
         return ("chunks", frags_of(case))
     if k == "srv":
         alld = b" ".join(d for d, _, _ in case[2])
         return ("srv", case[1], [(split_at(d, c), bool(cl)) for d, c, cl in case[2]], bad_urls(alld))
     if k == "cli":
         return ("cli", split_at(case[1], case[2]), bool(case[3]))
+    if k == "clir":
+        return ("cli", split_at(case[1], case[2]), True)
     raise ValueError(f"bad case kind {k!r}")
 
 
@@ -859,7 +926,7 @@ def view_of(case, obs):
                     out.append((n, o))
             return (multi[0], out)
         return (multi[0],)
-    if k == "cli":
+    if k in ("cli", "clir"):
         return (obs[0][0],)
     return obs
 
@@ -867,7 +934,7 @@ def view_of(case, obs):
 def shrink_case(case):
     """smaller variants: fewer cuts, shorter data"""
     k = case[0]
-    idx = {"req": (1, 2), "resp": (2, 3), "sse": (1, 2), "chunks": (1, 2), "cli": (1, 2)}.get(k)
+    idx = {"req": (1, 2), "resp": (2, 3), "sse": (1, 2), "chunks": (1, 2), "cli": (1, 2), "clir": (1, 2)}.get(k)
     if idx:
         di, ci = idx
         data, cuts = case[di], tuple(case[ci])
@@ -907,12 +974,16 @@ def shrink_case(case):
             yield (k, body, sizes, exts[:-1], trailers, ())
         for i in range(len(body)):
             yield (k, body[:i] + body[i + 1:], sizes, exts, trailers, ())
-    elif k == "pack":
+    elif k in ("pack", "wsgi"):
         _, ps, cuts = case
         if cuts:
             yield (k, ps, ())
         for i in range(len(ps)):
             yield (k, ps[:i] + ps[i + 1:], ())
+            if len(ps[i]) > 8 and ps[i] != b"a" * len(ps[i]):
+                yield (k, ps[:i] + (b"a" * len(ps[i]),) + ps[i + 1:], ())     # same length, plain content
+            if len(ps[i]) > 1:
+                yield (k, ps[:i] + (ps[i][:-1],) + ps[i + 1:], ())
             if len(ps[i]) > 1:
                 yield (k, ps[:i] + (ps[i][:len(ps[i]) // 2],) + ps[i + 1:], ())
     elif k == "srv":
@@ -939,3 +1010,60 @@ def has_escape(obs_part):
     if isinstance(obs_part, (tuple, list)):
         return any(has_escape(x) for x in obs_part)
     return False
+
+
+# --------------------------------------------------------------------------------------------------------------
+# the encode side through the WSGI responder, and boundary sizes
+
+class _Incomer:
+    def __init__(self):
+        self.txbs = bytearray()
+        self.ca = ("127.0.0.1", 40000)
+
+    def tx(self, data):
+        self.txbs.extend(data)
+
+
+def wsgi_wire(pieces):
+    """bytes serving.Responder puts on the wire for an application that yields `pieces` (HTTP/1.1, chunked)"""
+    from hio.core.http import serving
+
+    def app(environ, start_response):
+        start_response("200 OK", [("Content-Type", "application/octet-stream"), ("Date", "Thu, 01 Jan 2026 00:00:00 GMT"), ("Server", "t")])
+        for p in pieces:
+            yield bytes(p)
+
+    inc = _Incomer()
+    rep = serving.Responder(incomer=inc, app=app, environ={"REQUEST_METHOD": "GET"}, chunkable=True)
+    for _ in range(len(pieces) + 3):
+        rep.service()
+        if rep.ended:
+            break
+    return bytes(inc.txbs)
+
+
+def size_constants():
+    from ..extract import httpparse as xhp
+    return xhp.size_constants()
+
+
+def boundary_sizes(limit=300000):
+    """sizes at and around every size constant of the module and its small multiples (read from the module now, so a
+    new or changed constant moves the boundaries), plus the trivial ones"""
+    out = {0, 1, 2, 15, 16, 17, 255, 256, 257, 4095, 4096, 4097}
+    for _, c in size_constants():
+        for k in (1, 2, 3):
+            for d in (-1, 0, 1):
+                v = k * c + d
+                if 0 <= v <= limit:
+                    out.add(v)
+    return sorted(out)
+
+
+def piece_of(rng, n):
+    """n bytes, cheap to build, with CR/LF/hex-looking content at both ends"""
+    if n <= 64:
+        return rand_body(rng, n)
+    head = rand_body(rng, 16)
+    tail = rand_body(rng, 16)
+    return head + bytes([rng.randrange(256)]) * (n - 32) + tail
